@@ -8,7 +8,7 @@ from .. import core, gen, hist, model
 from ..session import Outcome
 from . import PropBase, steps_with_ids
 
-FAULTS = ("other_module_first", "stack", "clear", "clear_typing", "order")
+FAULTS = ("other_module_first", "stack", "clear", "clear_typing", "order", "exhaust_scan")
 WRAPPERS = ("newtype", "alias", "salias", "final", "classvar", "sref", "fref")
 POSITIONS = ("root", "list", "dict", "tuple", "union", "field")
 
@@ -246,6 +246,11 @@ class C11(PropBase):
                 step["depth"] = rng.randint(1, 40)
             if "order" in sw and rng.random() < 0.5:
                 step["wrapped_first"] = True
+            if "exhaust_scan" in sw and rng.random() < 0.3:
+                # the wrapped form is first used from stack depths at which the call cannot complete:
+                # every attempt dies of RecursionError a little further in, until one fits.  What the
+                # aborted attempts leave behind must not make the wrapper any less transparent.
+                step["scan"] = True
             steps.append(step)
         return {"prop": self.ID, "seed": seed, "tier": tier, "world": world, "env": env, "steps": steps_with_ids(steps), "meta": {"swarm": sw}}
 
@@ -310,6 +315,15 @@ class C11(PropBase):
                 return e
             return sess.guarded(sess.call, step, c.value.decode, e.value)
 
+        if step.get("scan"):
+            # (the trampoline issues the library call itself: a harness frame in between would be
+            # taken for the module a string reference is resolved against)
+            if d == "unmarshal":
+                sess.scan_exhaust(step, typelib.unmarshal, Tw, sess.V(step["x"]))
+            elif d == "marshal":
+                sess.scan_exhaust(step, typelib.marshal, sess.V(step["x"]), t=Tw)
+            else:
+                sess.scan_exhaust(step, typelib.codec, Tw)
         if step.get("wrapped_first"):
             ow = run(Tw, step["x"])
             ob = run(Tb, xb)
